@@ -170,7 +170,34 @@ Section AssocLemmas.
     - intro Hin. apply keys_aremove_subset in Hin. tauto.
     - apply NoDup_keys_aremove. exact H.
   Qed.
+
+  Lemma aremove_idempotent : forall (k : K) (l : list (K * V)), aremove keq k (aremove keq k l) = aremove keq k l.
+  Proof.
+    intros k l. induction l as [|[k' v] t IH]; cbn; auto.
+    destruct (keq k k') eqn:E; auto. cbn. rewrite E, IH. reflexivity.
+  Qed.
 End AssocLemmas.
+
+(* the specification itself: an upload replaces, a delete is idempotent *)
+Section SpecLemmas.
+  Context {K P : Type}.
+  Variable keq : K -> K -> bool.
+  Variable matches : P -> K -> bool.
+  Hypothesis keq_spec : forall a b, keq a b = true <-> a = b.
+
+  Lemma spec_upload_replaces : forall k v (s : @store K),
+    let s' := fst (spec_step keq matches (Upload k v) s) in
+    snd (spec_step keq matches (Download k) s') = OData v /\
+    forall j, j <> k -> snd (spec_step keq matches (Download j) s') = snd (spec_step keq matches (Download j) s).
+  Proof.
+    intros k v s. cbn. rewrite (keq_refl keq keq_spec). split; auto.
+    intros j Hj. apply (keq_false keq keq_spec) in Hj. rewrite Hj, (alookup_aremove keq keq_spec), Hj. reflexivity.
+  Qed.
+
+  Lemma spec_delete_idempotent : forall k (s : @store K),
+    fst (spec_step keq matches (Delete k) (fst (spec_step keq matches (Delete k) s))) = fst (spec_step keq matches (Delete k) s).
+  Proof. intros k s. cbn. apply aremove_idempotent. Qed.
+End SpecLemmas.
 
 (* ------------------------------------------------------------------ sorted association lists *)
 Section SortedLemmas.
